@@ -523,3 +523,67 @@ with pi_arms :=
   end.
 
 Ltac concrete x := let v := eval vm_compute in x in change x with v.
+
+(* ---- a whole template file: use lines, declaration, body ---- *)
+Definition targs_parser : parser (option bytes) :=
+  opt (delimited (terminated (tag (b "<")) multispace0)
+         (context (b "expected type argument or '>'")
+            (map_res (recognize (separated_list1 (terminated (tag (b ",")) multispace0)
+                                   (context (b "expected lifetime declaration") (preceded (tag (b "'")) rust_name)))) to_str))
+         (tag (b ">"))).
+Definition args_parser (TY : tynt -> parser unit) : parser (list bytes) :=
+  delimited
+    (context (b "expected '('...')' template arguments declaration.") (terminated (tag (b "(")) multispace0))
+    (separated_list0 (terminated (tag (b ",")) multispace0) (context (b "expected formal argument") (formal_argument TY)))
+    (context (b "expected ',' or ')'.") (delimited multispace0 (tag (b ")")) spacelike)).
+
+Section WholeTemplate.
+  Variable E : nt -> parser bytes.
+  Hypothesis HE : forall x, good (E x).
+  Variable ln : nat.
+  Variable TY : tynt -> parser unit.
+
+  (* [PT t i]: the text i is a template whose AST is t *)
+  Inductive PT : nat -> template_t -> bytes -> Prop :=
+  | PT_mk d uses ta ar body i i1 i2 i3 i4 :
+      spacelike i = Ok tt i1 ->
+      steps use_line uses i1 (64%N :: i2) -> (exists e, use_line (64%N :: i2) = Err e) ->
+      targs_parser i2 = Ok ta i3 -> args_parser TY i3 = Ok ar i4 ->
+      PIs E ln d body i4 [] ->
+      PT d {| preamble := uses; type_args := match ta with Some t => t | None => [] end; args := ar; body := body |} i.
+
+  Lemma good_use_line : good use_line.
+  Proof. unfold use_line. pose proof good_spacelike. good_auto. Qed.
+
+  Lemma steps_ext {A} (f g : parser A) : (forall j, g j = f j) -> forall l i r, steps f l i r -> steps g l i r.
+  Proof.
+    intros Hfg. induction l as [|a l IH]; intros i r S; cbn [steps] in *; [exact S|].
+    destruct S as [i1 [F [L S]]]. exists i1. split; [now rewrite Hfg|]. split; [exact L|now apply IH].
+  Qed.
+  Lemma body_complete_ext d l i m TEX : (forall j, TEX j = texpr_gram E ln m TE j) -> PIs E ln d l i [] -> d < m ->
+    many_till (context (b "Error in expression starting here:") TEX) end_of_file i = Ok (l, tt) [].
+  Proof.
+    intros HX H Hm. pose proof (proj1 (proj2 (proj2 (proj2 (grammar_complete E HE ln)))) d l i _ H m Hm) as S.
+    assert (Gte : good TEX).
+    { apply (good_ext (fun j => texpr_gram E ln m TE j)); [intros j; symmetry; apply HX|apply good_eta, good_texpr_gram, HE]. }
+    assert (Gc : good (context (b "Error in expression starting here:") TEX)) by good_auto.
+    apply (many_till_steps _ _ (g_sfx Gc) l i [] tt []); [apply steps_context; now apply (steps_ext _ TEX HX) in S| |reflexivity].
+    intros j a j' Hj. unfold context in Hj. rewrite HX in Hj. destruct (texpr_gram E ln m TE j) as [a0 j0| |] eqn:T; try discriminate.
+    pose proof (te_progress E HE ln m j a0 j0 T). destruct j; [cbn in *; lia|]. eexists. reflexivity.
+  Qed.
+
+  Theorem template_complete d t i m TEX : (forall j, TEX j = texpr_gram E ln m TE j) -> PT d t i -> d < m ->
+    template TY TEX i = Ok t [].
+  Proof.
+    intros HX H Hm. destruct H as [d uses ta ar body i i1 i2 i3 i4 S1 SU [e EU] HT HA HB].
+    unfold template.
+    rewrite (pmap_ok _ _ _ (tt, uses, b "@", ta, ar, (body, tt)) []); [reflexivity|].
+    eapply pair_ok; [eapply pair_ok; [eapply pair_ok; [eapply pair_ok; [eapply pair_ok|]|]|]|].
+    - exact S1.
+    - exact (many0_steps use_line (g_sfx good_use_line) _ _ _ _ SU EU).
+    - apply context_ok. change (64%N :: i2) with (b "@" ++ i2). apply tag_ok.
+    - exact HT.
+    - exact HA.
+    - exact (body_complete_ext d body i4 m TEX HX HB Hm).
+  Qed.
+End WholeTemplate.
